@@ -391,7 +391,7 @@ pub const FIXED: [&str; 14] = [
     "5b6001600057",                       // JUMPI loop onto offset 0
     "5b600056",                           // JUMP loop
     "5b366000575b36600657",               // two fork targets
-    "6005600161010001b50",                // junk
+    "6005600161010001b500",               // junk
     "60016002016000556003600054",         // computed storage key vs literal
     "7fffffffffffffffffffffffffffffffffffffffffffffffffffffffffffffffff600052",
     "6040356020350160005260206000f3",
